@@ -78,7 +78,7 @@ CHECKS = {
    text="omen_generate_guesses pickles the cursor right after the last emitted guess exactly when it stops on a quit; restore_omen emits from the pickled cursor a prefix of the remaining strings "
         "of the level, all of them unless the user quits again; CrackingSession.run resumes a Markov level first, and only, when the loaded options hold the cursor option; "
         "_save_session writes that option exactly when this process stopped inside a Markov level, so later cycles do not replay the remainder. Bounded: every cut position on the real MarkovCracker, "
-        "three-session cycles on a trained ruleset. Known finding F17 (quit inside the last pre-terminal's level is not saved).",
+        "three-session cycles on a trained ruleset (incl. a quit inside the last pre-terminal's level: defect F17, repaired).",
    note="MarkovCracker.next_guess/save_session/load_session trusted (C10's subject); A-PICKLE; rely/guarantee sequentialisation of the keyboard thread"),
  'C11': dict(level='other', technique=TECH + "; guesser side and file round trip by a bounded stand-in",
    text="find_omen_level (trainer tables) and OmenScorer.parse (IP/CP/LN tables) each return ln + ip + the sum of the transition levels of every n-gram and -1 exactly when the length is "
